@@ -16,8 +16,16 @@ LEVEL = "model_checking"
 TODAYS = [(2024, 3, 3), (2024, 1, 2), (2023, 3, 1), (2024, 5, 18), (2025, 1, 6), (2024, 12, 31)]
 
 
-def _chunk(args):
-    today, cases = args
+def _chunk(segments):
+    """segments: [(today, cases), ...] - one process expands on SEVERAL days in turn (anything remembered from an earlier
+    expansion must not leak into a later day's)."""
+    bad = []
+    for today, cases in segments:
+        bad += _segment(today, cases)
+    return bad
+
+
+def _segment(today, cases):
     zenv.set_day("%04d-%02d-%02d" % today, "23:59:00")
     from zorg.service.file_groups import expand_file_group_paths
     bad = []
@@ -59,9 +67,15 @@ def run(ctx):
             cases = rng.sample(cases, min(len(cases), 12000))
         n += len(cases)
         sample = sample or cases[len(cases) // 2]
-        for i in range(0, len(cases), 1500):
-            jobs.append((today, cases[i:i + 1500]))
-    bad = [b for part in par.pmap(_chunk, jobs, chunk=1) for b in part]
+        for i in range(0, len(cases), 500):
+            jobs.append((today, cases[i:i + 500]))
+    # every worker job mixes the days: segment k of each day, in turn
+    by_day = {}
+    for today, seg in jobs:
+        by_day.setdefault(today, []).append(seg)
+    depth = max(len(v) for v in by_day.values())
+    mixed = [[(today, segs[k]) for today, segs in sorted(by_day.items()) if k < len(segs)] for k in range(depth)]
+    bad = [b for part in par.pmap(_chunk, mixed, chunk=1) for b in part]
     groups = {}
     for b in bad:
         groups.setdefault("exception" if "exc" in b else b.get("law", "expansion"), []).append(b)
